@@ -209,7 +209,7 @@ func (e *engine) replayPinned(h *harnessSpec, v *violation) bool {
 	if fn == nil {
 		return false
 	}
-	solver := NewSolver(e.opts.solverBin, e.opts.solverTmoMs)
+	solver := newSolverFor(e, h)
 	defer solver.Close()
 	r := e.runPathPinned(h, fn, v.Trace, solver, v.Model)
 	for _, v2 := range r.violations {
